@@ -7,10 +7,17 @@ real functions: array <-> matrix conversions exactly; the post-processing of `ca
 `calculate_array_from_eigens`, `invert_strain`, `convert_lte_*` on the eigen-system that the real `eigh`
 call returned (captured by wrapping `np.linalg.eigh`; the model evaluates the hypothesis of the theorems -
 A V = V diag(w), V^T V = 1, w ascending - exactly on it and the harness requires the residuals to be at
-rounding level); `align_nnz` pattern exactly and values within 1e-12 * D.
+rounding level); `align_nnz` pattern exactly and values within 1e-12 * max(D, max |entry|).
 Oracle (real API only): the inverse laws, symmetry, descending / orthonormal / right-handed / rebuild,
 strain inverted twice, lte global -> local -> global, align_nnz values and common pattern, and
 `np.array_equal(input_before, input_after)` for every helper (aliasing is checked on the implementation only).
+
+Round 4 (classes F, G, H of ROUND4.md): every helper takes its input through `materialise` (dtype x memory layout), arrays femio
+returned are handed back through `relayout`; structured special tensors (`special_variants`: all six orders of an exactly diagonal
+tensor, repeated values at every position, rank 1 / 2, planar, near-diagonal ...) in one batch with general ones; align_nnz is
+judged cell by cell (no dense arrays) so that shapes with n_row * n_col beyond 2^31 / 2^32 / 2^33 and a handful of entries are
+ordinary cases, with per-matrix formats, index / value dtypes and repeated COO cells; the eigh tie is keyed by the matrix handed
+to eigh (it used to index the rows of ONE captured call and crashed the harness when femio called eigh on a subset of the rows).
 """
 import itertools
 from fractions import Fraction as F
@@ -24,9 +31,13 @@ from . import meshgen as MG
 PROP = 'C17'
 LEAN_MODULES = ['Femio.Props.C17']
 THEOREMS = ['C17_arr_mat_inverse', 'C17_principal', 'C17_principal_array', 'C17_invert_strain', 'C17_lte_roundtrip',
-            'C17_align_nnz']
+            'C17_align_nnz', 'C17_diag_shortcut', 'C17_diag_shortcut_rows_selfinverse', 'C17_diag_shortcut_rows_counterexample',
+            'C17_flat_key_order', 'C17_flat_key_wrap_counterexample']
 PARTIAL = ['clause "does not modify the caller\'s array": no theorem (numpy aliasing), checked on the implementation by '
-           'snapshot comparison for every helper and memory layout',
+           'snapshot comparison for every helper, dtype and memory layout (read-only inputs included: a write raises)',
+           'C17_diag_shortcut / C17_flat_key_order are about implementations femio does not have (a shear-free shortcut, alignment by '
+           'flattened keys): they state what such a rewrite must satisfy and the *_counterexample theorems pin the two seeded changes '
+           '(C17-8, C17-7); the real code is tied to diagShortcut on every exactly diagonal tensor with distinct values',
            'np.linalg.eigh is not modelled: its post-condition (IsEigh, ascending) is the explicit hypothesis of '
            'C17_principal / C17_principal_array / C17_invert_strain / C17_lte_roundtrip, evaluated exactly on every captured call',
            'convert_lte_*: only global -> local -> global is claimed by the property and proved (local -> global -> local '
@@ -39,13 +50,28 @@ RULE = ('batches of 1..6 symmetric tensors (random dyadic / decimal / integer-va
         'x component order (all 720 permutations in the thorough tier, a random sample + identity + '
         'reversal in quick) x both shear conventions x memory layout of the input (C, Fortran, strided view); '
         'align_nnz: 1..4 CSR / COO matrices of a common shape up to 6x6 with densities 0..1 (empty and full included), '
-        'explicit zeros, unsorted indices, mixed signs. distinct = distinct (helper, input, options); a case is '
-        'non-trivial unless the tensor batch is all zero / all matrices are empty.')
+        'explicit zeros, unsorted indices, mixed signs. Round 4: stream "structured" (class H): every structured special tensor in ONE '
+        'batch with 0..3 general ones - exactly diagonal with three distinct values in all 6 orders of the diagonal (two of them '
+        '3-cycles), two equal values at every position (single one larger / smaller), values one ulp .. 2^-40 apart, one non-zero '
+        'diagonal entry (both signs), rank 1 / rank 2 in general position, one axis aligned + the other two rotated by a Pythagorean '
+        'angle or a quarter turn (two shear components exactly zero), diagonal + shear of relative size 1e-9 .. 1e-6 or 1e-300, '
+        'isotropic, zero - through principal / array_from_eigens / arr<->mat (sampled orders x both conventions), invert_strain and '
+        'lte; stream "typed" (class F): helper x dtype of the caller\'s array (float64, float32, int8..int64, uint8..uint64; values '
+        'representable in the dtype, integer strains with |1 + l| >= 1/4) x memory layout (C, Fortran, strided view, transposed view, '
+        'negative strides, read-only C / Fortran) x layout of the arrays femio returned and the caller hands back (matrix, values, '
+        'directions: Fortran, strided, negative strides, read-only); stream "align extended": format per matrix (csr / csc / coo, mixed '
+        'inside one list), int32 / int64 index arrays, value dtype (float64, float32, int8..uint64, bool), repeated COO cells '
+        '(float64; value = sum), unsorted CSR / CSC, shapes small / medium (<= 300 x 300) / big (class G: 16 shapes with n_row * n_col '
+        'just below / beyond 2^31, 2^32, 2^33, n_row <= 3e5, up to 14 stored entries concentrated at the corners, the last rows / '
+        'columns and the rows / columns where row * n_col + col crosses a power of two; layouts spread / first-and-last rows / shared; '
+        'two shapes with n_col > 2^31, i.e. int64 index arrays inside scipy); sub-stream int-dtype-extreme (entries at the ends of the '
+        'integer dtype + the entry that the WRAPPED dummy value would cancel); corpus/C17 first. distinct = distinct (helper, input, '
+        'options); a case is non-trivial unless the tensor batch is all zero / all matrices are empty.')
 ASSUMPTIONS = [
     'np.linalg.eigh post-condition (orthonormal eigenvectors, ascending eigenvalues) is a hypothesis of the theorems; '
     'checked numerically on every captured call (residual <= 1e-12 * scale)',
     'float results are compared with the exact model within stated tolerances: 1e-15 (cross product of unit vectors), '
-    '1e-13 * scale (reconstruction), 1e-12 * kappa^2 * scale (strain inversion, kappa = max |1/(1+l)|), 1e-12 * D (align_nnz)',
+    '1e-13 * scale (reconstruction), 1e-12 * kappa^2 * scale (strain inversion, kappa = max |1/(1+l)|), 1e-12 * max(D, max |entry|) (align_nnz)',
     'near-singular strains (stream strain:near-singular, 1+l down to 1e-7): strain inverted twice is compared with the original '
     'within 5e-14 * kappa * scale, i.e. ~225 ulp of the magnitude kappa of the once-inverted tensor (rounding of eigh on a matrix of '
     'norm kappa; measured worst case on the unchanged code over 12000 tensors: 1.4e-15 * kappa); a deviation of 1e-8 or more at '
@@ -54,7 +80,19 @@ ASSUMPTIONS = [
     '"does not modify the caller\'s array" is an aliasing fact of numpy fancy indexing: checked on the implementation '
     'by snapshot comparison, not a theorem',
     'align_nnz inputs are canonical (no duplicate cells, all inside the shape: the hypothesis hwf of C17_align_nnz, true by '
-    'construction of the generator and asserted per case); D is compared within one rounding',
+    'construction of the generator and asserted per case) except COO inputs with repeated cells, whose value is the sum: the model '
+    'gets their canonical form; D is compared within one rounding',
+    'align_nnz values are compared within 1e-12 * max(D, max |entry|): (s + c D) - c D is rounded at the magnitude of s + c D and a '
+    'positive matrix has D = 1 whatever the size of its entries',
+    'float32 inputs: femio computes in single precision; orthonormality / handedness / rebuild / strain inversion are judged with '
+    '2e-5 (relative to the scale, kappa^2 for strains) instead of 1e-12 (measured worst case on the unchanged code over 26000 '
+    'tensors: 3.4e-7); the model tie is skipped for float32 (eigh residuals are at single-precision level); integer and unsigned '
+    'inputs are promoted to binary64 by numpy and judged like float64',
+    'float16 / longdouble inputs are outside the quantifier (numpy.linalg does not support them)',
+    'big sparse shapes keep n_row <= 3e5 (CSR row pointers) and CSC only with n_col <= 4e5; CSR inputs with more than 4e5 columns '
+    'have sorted indices (scipy adds unsorted CSR matrices with an O(n_col) workspace: a cost, not a value)',
+    'the tie of the eigh-based helpers is keyed by the matrix handed to np.linalg.eigh: a tensor that is not handed to eigh at all '
+    'is a broken correspondence (the model post-processes an eigh result), reported once per helper; the oracle decides',
 ]
 TRUSTED = ['C17: np.linalg.eigh is wrapped by the harness to capture its argument and result (copied before femio '
            'overwrites the third eigenvector in place)']
@@ -113,6 +151,87 @@ def layouts(rnd, a):
         big[::2, ::2] = a
         return big[::2, ::2], kind
     return a.copy(), kind
+
+
+DTYPES = ['float64', 'float32', 'int8', 'int16', 'int32', 'int64', 'uint8', 'uint16', 'uint32', 'uint64']
+LAYOUTS = ['C', 'F', 'view', 'T', 'neg', 'ro', 'roF']
+_LEGACY_DTYPE = {'float': 'float64', 'int': 'int64', None: 'float64'}
+
+
+def materialise(rows, dtype='float64', layout='C'):
+    """the caller's array: the given values in the given dtype and memory layout (class F of ROUND4: integer / unsigned /
+    float32 storage, Fortran order, transposed view, strided and negatively strided views, read-only arrays)"""
+    dt = np.dtype(_LEGACY_DTYPE.get(dtype, dtype))
+    a = np.array(rows, dtype=float)
+    assert np.array_equal(a.astype(dt).astype(float), a), 'generator: value not representable in the dtype'
+    a = a.astype(dt)
+    if layout in ('F', 'roF'):
+        a = np.asfortranarray(a)
+    elif layout == 'view':
+        big = np.zeros((a.shape[0] * 2, a.shape[1] * 2), dtype=dt)
+        big[::2, ::2] = a
+        a = big[::2, ::2]
+    elif layout == 'T':
+        a = np.ascontiguousarray(a.T).T
+    elif layout == 'neg':
+        a = a[::-1, ::-1].copy()[::-1, ::-1]
+    else:
+        a = a.copy()
+    if layout in ('ro', 'roF'):
+        a.setflags(write=False)
+    return a
+
+
+MLAYOUTS = [None, None, 'F', 'view', 'ro', 'neg']
+
+
+def relayout(x, kind):
+    """an array femio returned, handed back by the caller with the same values in another memory layout"""
+    x = np.asarray(x)
+    if kind == 'F':
+        return np.asfortranarray(x)
+    if kind == 'view':
+        big = np.zeros(tuple(2 * d for d in x.shape), dtype=x.dtype)
+        sl = tuple(slice(None, None, 2) for _ in x.shape)
+        big[sl] = x
+        return big[sl]
+    if kind == 'neg':
+        sl = tuple(slice(None, None, -1) for _ in x.shape)
+        return x[sl].copy()[sl]
+    if kind == 'ro':
+        y = x.copy()
+        y.setflags(write=False)
+        return y
+    return x
+
+
+def rel_tol(dtype):
+    """rounding level of the arithmetic femio does in the dtype of the input: binary64 for float64 and all integer dtypes
+    (numpy promotes), binary32 for float32 inputs (eigh, cross product and the rebuild run in single precision;
+    measured worst case on the unchanged code over 20000 tensors: see ASSUMPTIONS)"""
+    return 2e-5 if np.dtype(_LEGACY_DTYPE.get(dtype, dtype)) == np.float32 else 1e-12
+
+
+def captured(tap):
+    """eigen-systems captured from np.linalg.eigh, keyed by the bytes of the matrix handed in (so that the tie does not depend
+    on HOW femio batches its eigh calls: one call, one per row, or a subset of the rows)"""
+    d = {}
+    for A, w, V in tap.calls:
+        A = np.asarray(A, dtype=float)
+        if A.ndim == 2:
+            A, w, V = A[None], np.asarray(w)[None], np.asarray(V)[None]
+        if A.ndim != 3 or A.shape[1:] != (3, 3):
+            continue
+        for r in range(len(A)):
+            d.setdefault((A[r] + 0.0).tobytes(), (A[r], np.asarray(w[r], dtype=float), np.asarray(V[r], dtype=float)))
+    return d
+
+
+def no_capture(ctx, what, ci):
+    """the implementation did not hand this tensor to eigh: the model (post-processing of an eigh result) has nothing to be
+    compared with -> the correspondence is broken for this input (the oracle decides whether the property still holds)"""
+    ctx.disagree(f'{what}: no np.linalg.eigh call captured for this tensor (the model post-processes the eigen-system eigh returns)',
+                 ci, 'not handed to eigh', 'eigh result expected')
 
 
 def rational_rotation(rnd):
@@ -178,6 +297,147 @@ def tensor6(rnd, kind, strain=False):
 TKINDS = ['random', 'random', 'scaled', 'repeated', 'isotropic', 'zero', 'near-singular', 'spd']
 
 
+# ---- structured special values (class H of ROUND4): tensors on which a shortcut that avoids the general eigen-solver is
+#      tempting and on which "sorted / orthonormal / right-handed" can hold while "rebuilds the input" does not
+
+PERMS3 = list(itertools.permutations(range(3)))
+PYTH = [(3 / 5, 4 / 5), (4 / 5, 3 / 5), (5 / 13, 12 / 13), (-3 / 5, 4 / 5), (8 / 17, -15 / 17), (0.0, 1.0), (0.0, -1.0), (-1.0, 0.0)]
+
+
+def special_variants(ints=False):
+    """every (kind, variant) of the structured tensors: exactly diagonal with three distinct values in all 6 orders of the
+    diagonal (the descending order is the identity, a swap or a 3-CYCLE), two equal values (position of the single one x
+    single one larger / smaller), nearly equal values, one non-zero diagonal entry (rank 1 on an axis, both signs), rank 1 and
+    rank 2 in general position, one axis aligned and the other two rotated in their plane (two of the three shear components
+    exactly zero; includes the quarter turns = signed axis permutations), diagonal plus tiny shear, isotropic, zero"""
+    v = [('diagonal', p) for p in PERMS3]
+    v += [('diag-repeated', (pos, hi)) for pos in range(3) for hi in (False, True)]
+    v += [('rank1-axis', (k, sg)) for k in range(3) for sg in (1, -1)]
+    v += [('rank1', None), ('isotropic', None), ('zero', None)]
+    if not ints:
+        v += [('diag-nearly-repeated', p) for p in PERMS3[::2]]
+        v += [('planar', k) for k in range(3)]
+        v += [('near-diagonal', p) for p in PERMS3]
+        v += [('rank2', None)]
+    return v
+
+
+def special_tensor(rnd, kind, var, ints=False):
+    """tensor components [11, 22, 33, 12, 23, 31] of one structured tensor"""
+    def val():
+        if ints:
+            return float(rnd.randint(-9, 9))
+        c = rnd.choice(['int', 'dyadic', 'decimal', 'small'])
+        if c == 'int':
+            return float(rnd.randint(-9, 9))
+        if c == 'dyadic':
+            return rnd.randint(-2**20, 2**20) / 2.0**rnd.randint(0, 24)
+        if c == 'small':
+            return round(rnd.uniform(-1, 1), 6) * 10.0**rnd.randint(-6, -1)
+        return round(rnd.uniform(-10, 10), 13)
+
+    def distinct(n, nonzero=False):
+        while True:
+            xs = [val() for _ in range(n)]
+            if len(set(xs)) == n and not (nonzero and 0.0 in xs):
+                return xs
+    d, sh = [0.0, 0.0, 0.0], [0.0, 0.0, 0.0]
+    if kind in ('diagonal', 'near-diagonal'):
+        xs = sorted(distinct(3), reverse=True)
+        for k in range(3):
+            d[var[k]] = xs[k]                      # the k-th largest value sits at diagonal position var[k]
+        if kind == 'near-diagonal':
+            sc = max(abs(x) for x in xs)
+            eps = rnd.choice([1e-9, 1e-7, 1e-6, 1e-300 / sc])
+            sh = [rnd.choice([0.0, 1.0, -1.0, .5]) * eps * sc for _ in range(3)]
+            if not any(sh):
+                sh[rnd.randrange(3)] = eps * sc
+    elif kind == 'diag-repeated':
+        pos, hi = var
+        l, m_ = sorted(distinct(2))
+        if not hi:
+            l, m_ = m_, l
+        d = [l, l, l]
+        d[pos] = m_
+    elif kind == 'diag-nearly-repeated':
+        l, m_ = distinct(2, nonzero=True)
+        xs = [l, float(np.nextafter(l, rnd.choice([-np.inf, np.inf]))) if rnd.random() < .5 else l * (1 + 2.0**-rnd.randint(40, 50)), m_]
+        for k in range(3):
+            d[var[k]] = xs[k]
+    elif kind == 'rank1-axis':
+        k, sg = var
+        d[k] = sg * (abs(val()) + (1.0 if ints else 2.0**-10))
+    elif kind == 'rank1':
+        while True:
+            v = [rnd.randint(-2, 2) for _ in range(3)]
+            if sum(1 for x in v if x) >= 2:
+                break
+        c = float(rnd.choice([-3, -2, -1, 1, 2, 3])) if ints else (val() or 1.0)
+        d = [c * v[0] * v[0], c * v[1] * v[1], c * v[2] * v[2]]
+        sh = [c * v[0] * v[1], c * v[1] * v[2], c * v[0] * v[2]]
+    elif kind == 'isotropic':
+        d = [val()] * 3
+    elif kind == 'zero':
+        pass
+    elif kind == 'planar':
+        lam = distinct(3) if rnd.random() < .8 else (lambda x: [x[0], x[0], x[1]])(distinct(2))
+        rnd.shuffle(lam)
+        c, s_ = rnd.choice(PYTH)
+        i, j = [(1, 2), (2, 0), (0, 1)][var]
+        R = np.eye(3)
+        R[i, i], R[i, j], R[j, i], R[j, j] = c, -s_, s_, c
+        A = R @ np.diag(lam) @ R.T
+        A = (A + A.T) / 2
+        for (a_, b_) in [(0, 1), (1, 2), (0, 2)]:
+            if {a_, b_} != {i, j}:
+                A[a_, b_] = A[b_, a_] = 0.0        # exactly zero (they are, up to the sign of zero)
+        d, sh = [A[0, 0], A[1, 1], A[2, 2]], [A[0, 1], A[1, 2], A[0, 2]]
+    elif kind == 'rank2':
+        l, m_ = distinct(2, nonzero=True)
+        R = rational_rotation(rnd)
+        A = R @ np.diag([l, m_, 0.0]) @ R.T
+        A = (A + A.T) / 2
+        d, sh = [A[0, 0], A[1, 1], A[2, 2]], [A[0, 1], A[1, 2], A[0, 2]]
+    else:       # 'general'
+        d, sh = [val() for _ in range(3)], [val() for _ in range(3)]
+    return [float(x) + 0.0 for x in d + sh]
+
+
+def special_batch(rnd, order, eng, strain=False, dtype='float64', full=False):
+    """(n, 6) user array (values representable in `dtype`) of structured tensors mixed with 0..3 general ones in one batch
+    (a shortcut is typically applied to the matching ROWS of a batch through a mask), for the given order / convention"""
+    dt = np.dtype(dtype)
+    ints = dt.kind in 'iu'
+    variants = special_variants(ints)
+    if not full:
+        variants = rnd.sample(variants, rnd.randint(1, 6))
+    specs = variants + [('general', None)] * rnd.randint(0, 3)
+    rnd.shuffle(specs)
+    io = inv_perm(order)
+    rows, kinds = [], []
+    for kind, var in specs:
+        for _ in range(60):
+            t = special_tensor(rnd, kind, var, ints)
+            if dt.kind == 'u':
+                t = [abs(x) for x in t]
+            if strain:
+                w = np.linalg.eigvalsh(mat_of(t))
+                if ints:
+                    if np.abs(1 + w).min() < .25:
+                        continue                  # an integer-valued strain cannot be rescaled: draw again
+                else:
+                    s_ = max(1.0, float(np.abs(w).max()) / .9)
+                    t = [x / s_ for x in t]
+            b = [t[0], t[1], t[2]] + [x * (2 if eng else 1) for x in t[3:]]
+            row = np.array([b[io[k]] for k in range(6)])
+            if dt == np.float32:
+                row = row.astype(np.float32).astype(float)
+            rows.append(row)
+            kinds.append(kind if var is None else f'{kind}:{"".join(map(str, var)) if kind in ("diagonal", "near-diagonal", "diag-nearly-repeated") else var}')
+            break
+    return np.array(rows, dtype=float), kinds
+
+
 def batch(rnd, order, eng, strain=False):
     """(n, 6) user array for the given order / convention, plus the tensor components per row"""
     n = rnd.randint(1, 6)
@@ -239,32 +499,27 @@ def check_arrmat(ctx, case, record=True):
     from femio import functions as fn
     fails = []
     order, eng = case['order'], case['eng']
-    dtype = case.get('dtype', 'float')
-    a0 = np.array(case['a'], dtype=int if dtype == 'int' else float)
-    if case.get('layout') == 'F':
-        a0 = np.asfortranarray(a0)
-    elif case.get('layout') == 'view':
-        big = np.zeros((a0.shape[0] * 2, a0.shape[1] * 2), dtype=a0.dtype)
-        big[::2, ::2] = a0
-        a0 = big[::2, ::2]
+    dtype = _LEGACY_DTYPE.get(case.get('dtype', 'float'), case.get('dtype', 'float'))
+    a0 = materialise(case['a'], dtype, case.get('layout', 'C'))
     before = a0.copy()
     m = fn.convert_array2symmetric_matrix(a0, from_engineering=eng, order=list(order))
     if not np.array_equal(before, a0):
         fails.append(('mutation:array2symmetric_matrix', 'convert_array2symmetric_matrix modified the caller\'s array',
                       {'before': before.tolist(), 'after': a0.tolist()}))
     mb = np.array(m, copy=True)
+    m = relayout(m, case.get('mlayout'))
     back = fn.convert_symmetric_matrix2array(m, to_engineering=eng, order=inv_perm(order))
     if not np.array_equal(mb, m):
         fails.append(('mutation:symmetric_matrix2array', 'convert_symmetric_matrix2array modified the caller\'s matrix',
                       {'before': mb.tolist(), 'after': np.asarray(m).tolist()}))
-    if m.shape != (len(before), 3, 3) or not np.array_equal(m, np.transpose(m, (0, 2, 1))):
+    if mb.shape != (len(before), 3, 3) or not np.array_equal(mb, np.transpose(mb, (0, 2, 1))):
         fails.append(('asymmetric', 'convert_array2symmetric_matrix result is not a batch of symmetric 3x3 matrices',
                       {'matrix': np.asarray(m).tolist()}))
     if back.shape != before.shape or not np.array_equal(back, before):
-        sig = 'roundtrip:int-dtype-engineering' if dtype == 'int' else f'roundtrip:{"engineering" if eng else "tensor"}'
+        sig = 'roundtrip:int-dtype-engineering' if np.dtype(dtype).kind in 'iu' else f'roundtrip:{"engineering" if eng else "tensor"}'
         fails.append((sig, f'array -> matrix -> array (inverse order) is not the identity: {before.tolist()} -> {np.asarray(back).tolist()}',
                       {'input': before.tolist(), 'matrix': np.asarray(m).tolist(), 'back': np.asarray(back).tolist()}))
-    if ctx.driver is not None and dtype == 'float':
+    if ctx.driver is not None:
         o = C.enc_list(order)
         io = C.enc_list(inv_perm(order))
         lines, exp = [], []
@@ -291,7 +546,9 @@ def check_principal(ctx, case):
     from femio import functions as fn
     fails = []
     order, eng = case['order'], case['eng']
-    a0 = np.array(case['a'], dtype=float)
+    dtype = case.get('dtype', 'float64')
+    rel = rel_tol(dtype)
+    a0 = materialise(case['a'], dtype, case.get('layout', 'C'))
     before = a0.copy()
     with EighTap() as tap:
         vals, dirs, vecs = fn.calculate_principal_components(a0, from_engineering=eng, order=list(order))
@@ -300,55 +557,91 @@ def check_principal(ctx, case):
                       {'before': before.tolist(), 'after': a0.tolist()}))
     n = len(a0)
     b = before[:, list(order)]
-    T = np.array([mat_of([r[0], r[1], r[2]] + [x / (2 if eng else 1) for x in r[3:]]) for r in b])   # intended tensors
+    T = np.array([mat_of([r[0], r[1], r[2]] + [x / (2 if eng else 1) for x in r[3:]]) for r in b], dtype=float)   # intended tensors
     scale = np.maximum(np.abs(T).max(axis=(1, 2)), 1e-300)
+    vals, dirs, vecs = np.asarray(vals), np.asarray(dirs), np.asarray(vecs)
+    if vals.shape != (n, 3) or dirs.shape != (n, 9) or vecs.shape != (n, 9):
+        return fails + [('principal:shape', 'calculate_principal_components does not return (n, 3), (n, 9), (n, 9) arrays',
+                         {'shapes': [list(vals.shape), list(dirs.shape), list(vecs.shape)]})]
+    vals_impl, dirs_impl, vecs_impl = vals, dirs, vecs
+    vals, dirs, vecs = vals.astype(float), dirs.astype(float), vecs.astype(float)
     D = np.stack([dirs[:, 0:3], dirs[:, 3:6], dirs[:, 6:9]], axis=2)       # columns = directions
     ok_desc = np.all(vals[:, 0] >= vals[:, 1]) and np.all(vals[:, 1] >= vals[:, 2])
     if not ok_desc:
         fails.append(('principal:not-descending', 'principal values are not sorted descending', {'values': vals.tolist()}))
     gram = np.einsum('nki,nkj->nij', D, D)
-    if not np.all(np.abs(gram - np.eye(3)) <= 1e-12):
+    if not np.all(np.abs(gram - np.eye(3)) <= rel):
         fails.append(('principal:not-orthonormal', 'principal directions are not orthonormal',
                       {'gram': gram.tolist(), 'input': before.tolist()}))
     det = np.linalg.det(D)
-    if not np.all(np.abs(det - 1) <= 1e-12):
+    if not np.all(np.abs(det - 1) <= rel):
         fails.append(('principal:not-right-handed', 'principal directions are not right-handed (det != +1)',
                       {'det': det.tolist(), 'input': before.tolist()}))
     reb = np.einsum('nik,nk,njk->nij', D, vals, D)
-    if not np.all(np.abs(reb - T).max(axis=(1, 2)) <= 1e-12 * scale):
+    if not np.all(np.abs(reb - T).max(axis=(1, 2)) <= rel * scale):
         fails.append(('principal:rebuild', 'sum_k value_k d_k d_k^T differs from the input tensor',
                       {'input': before.tolist(), 'rebuilt': reb.tolist(), 'tensor': T.tolist()}))
-    arr_back = fn.calculate_array_from_eigens(vals.copy(), dirs.copy(), to_engineering=eng)
-    if not np.all(np.abs(arr_back - b).max(axis=1) <= 1e-12 * scale * 2):
+    v_in, d_in = relayout(vals_impl.copy(), case.get('mlayout')), relayout(dirs_impl.copy(), case.get('mlayout'))
+    arr_back = np.asarray(fn.calculate_array_from_eigens(v_in, d_in, to_engineering=eng))
+    if not (np.array_equal(v_in, vals_impl) and np.array_equal(d_in, dirs_impl)):
+        fails.append(('mutation:array_from_eigens', 'calculate_array_from_eigens modified the caller\'s arrays', {}))
+    if arr_back.shape != b.shape or not np.all(np.abs(arr_back - b).max(axis=1) <= rel * scale * 2):
         fails.append(('principal:array_from_eigens', 'calculate_array_from_eigens(values, directions) does not rebuild the input array',
                       {'input': b.tolist(), 'rebuilt': arr_back.tolist()}))
     want_vec = np.concatenate([vals[:, [k]] * dirs[:, 3 * k:3 * k + 3] for k in range(3)], axis=1)
-    if not np.all(np.abs(vecs - want_vec) <= 1e-15 * np.maximum(np.abs(want_vec), 1e-300) * 4):
+    if not np.all(np.abs(vecs - want_vec) <= (4e-15 if rel == 1e-12 else 5e-7) * np.maximum(np.abs(want_vec), 1e-300)):
         fails.append(('principal:vectors', 'principal vectors are not value * direction', {'vectors': vecs.tolist()}))
-    if ctx.driver is not None and len(tap.calls) == 1:
-        A, w, V = tap.calls[0]
+    if ctx.driver is not None and rel == 1e-12 and arr_back.shape == b.shape:
+        caps = captured(tap)
         o = C.enc_list(order)
-        lines = []
+        lines, rows_ = [], []
         for k in range(n):
-            lines += [f'c17.arr2mat {o} {int(eng)} {lst(before[k])}', f'c17.residual {rats(A[k])} {rats(w[k])} {rats(V[k])}',
-                      f'c17.principal {rats(w[k])} {rats(V[k])}',
+            cap = caps.get((T[k] + 0.0).tobytes())
+            if cap is None:
+                if not ctx.dist.get('tie:principal:tensor-not-handed-to-eigh'):
+                    no_capture(ctx, 'calculate_principal_components', {'order': list(order), 'eng': eng, 'row': before[k].tolist()})
+                ctx.count('tie:principal:tensor-not-handed-to-eigh')
+                continue
+            A_, w_, V_ = cap
+            rows_.append((k, A_))
+            lines += [f'c17.arr2mat {o} {int(eng)} {lst(before[k])}', f'c17.residual {rats(A_)} {rats(w_)} {rats(V_)}',
+                      f'c17.principal {rats(w_)} {rats(V_)}',
                       f'c17.fromeigens {rats(vals[k])} {rats(dirs[k])} {int(eng)}']
-        rep = ctx.driver.ask_many(lines)
+        # exactly diagonal tensors with three distinct values: the frame is unique up to signs; the real result must be the
+        # one of the model `diagShortcut true` (C17_diag_shortcut) for the descending order of the diagonal
+        dl, dk = [], []
         for k in range(n):
-            ci = {'order': list(order), 'eng': eng, 'row': before[k].tolist()}
-            m_in = reply_rats(rep[4 * k])[1:]
-            if m_in != fr(A[k]):
-                ctx.disagree('matrix handed to eigh', ci, A[k].tolist(), [str(x) for x in m_in])
+            dg = [float(T[k][0, 0]), float(T[k][1, 1]), float(T[k][2, 2])]
+            if not (T[k][0, 1] or T[k][1, 2] or T[k][0, 2]) and len(set(dg)) == 3:
+                srt = sorted(range(3), key=lambda i_: -dg[i_])
+                dl.append(f'c17.diagshortcut {rats(dg)} {srt[0]} {srt[1]} {srt[2]}')
+                dk.append(k)
+        for k, r in zip(dk, ctx.driver.ask_many(dl) if dl else []):
+            g = [float(x) for x in reply_rats(r)]
+            sc = max(float(np.abs(T[k]).max()), 1e-300)
+            if not (np.all(np.abs(np.array(g[:3]) - vals[k]) <= 1e-13 * sc)
+                    and np.all(np.abs(np.abs(np.array(g[3:12])) - np.abs(dirs[k])) <= 1e-12)):
+                ctx.disagree('principal components of an exactly diagonal tensor (model diagShortcut)',
+                             {'order': list(order), 'eng': eng, 'row': before[k].tolist()},
+                             {'values': vals[k].tolist(), 'directions': dirs[k].tolist()}, g)
                 break
-            res = [float(x) for x in reply_rats(rep[4 * k + 1])]
+        ctx.count('compared:diagonal tensors vs diagShortcut', len(dk))
+        rep = ctx.driver.ask_many(lines) if lines else []
+        for q, (k, A_) in enumerate(rows_):
+            ci = {'order': list(order), 'eng': eng, 'row': before[k].tolist()}
+            m_in = reply_rats(rep[4 * q])[1:]
+            if m_in != fr(A_):
+                ctx.disagree('matrix handed to eigh', ci, A_.tolist(), [str(x) for x in m_in])
+                break
+            res = [float(x) for x in reply_rats(rep[4 * q + 1])]
             r1, r2, asc = res[:9], res[9:18], res[18]
-            sc = max(float(np.abs(A[k]).max()), 1e-300)
+            sc = max(float(np.abs(A_).max()), 1e-300)
             if max(abs(x) for x in r1) > 1e-12 * sc or max(abs(x) for x in r2) > 1e-12 or asc != 1:
                 ctx.count('eigh-hypothesis-violated')
                 ctx.disagree('eigh post-condition (hypothesis of the theorems) does not hold numerically', ci,
                              {'AV-VL': max(abs(x) for x in r1), 'VtV-1': max(abs(x) for x in r2), 'ascending': asc}, 'residual <= 1e-12')
                 break
-            p = [float(x) for x in reply_rats(rep[4 * k + 2])]
+            p = [float(x) for x in reply_rats(rep[4 * q + 2])]
             mv, md, mvec = np.array(p[:3]), np.array(p[3:12]), np.array(p[12:21])
             if not (np.array_equal(mv, vals[k]) and np.array_equal(md[:6], dirs[k][:6])
                     and np.all(np.abs(md[6:] - dirs[k][6:]) <= 1e-15)
@@ -357,7 +650,7 @@ def check_principal(ctx, case):
                              {'values': vals[k].tolist(), 'directions': dirs[k].tolist(), 'vectors': vecs[k].tolist()},
                              {'values': mv.tolist(), 'directions': md.tolist(), 'vectors': mvec.tolist()})
                 break
-            fe = np.array([float(x) for x in reply_rats(rep[4 * k + 3])[1:]])
+            fe = np.array([float(x) for x in reply_rats(rep[4 * q + 3])[1:]])
             if fe.shape != arr_back[k].shape or not np.all(np.abs(fe - arr_back[k]) <= 1e-13 * max(float(np.abs(vals[k]).max()), 1e-300)):
                 ctx.disagree('calculate_array_from_eigens', ci, arr_back[k].tolist(), fe.tolist())
                 break
@@ -369,10 +662,15 @@ def check_strain(ctx, case):
     from femio import functions as fn
     fails = []
     eng = case['eng']
-    a0 = np.array(case['a'], dtype=float)
+    dtype = case.get('dtype', 'float64')
+    rel = rel_tol(dtype)
+    a0 = materialise(case['a'], dtype, case.get('layout', 'C'))
     before = a0.copy()
     with EighTap() as tap:
         inv1 = fn.invert_strain(a0, is_engineering=eng)
+    inv1 = np.asarray(inv1)
+    if inv1.shape != before.shape:
+        return [('strain:shape', 'invert_strain does not return an (n, 6) array', {'shape': list(inv1.shape)})]
     if not np.array_equal(before, a0):
         fails.append(('mutation:invert_strain', 'invert_strain modified the caller\'s array',
                       {'before': before.tolist(), 'after': a0.tolist()}))
@@ -380,11 +678,11 @@ def check_strain(ctx, case):
     inv2 = fn.invert_strain(inv1, is_engineering=eng)
     if not np.array_equal(inv1_before, inv1):
         fails.append(('mutation:invert_strain', 'invert_strain modified the caller\'s array (second call)', {}))
-    T = np.array([mat_of([r[0], r[1], r[2]] + [x / (2 if eng else 1) for x in r[3:]]) for r in before])
+    T = np.array([mat_of([r[0], r[1], r[2]] + [x / (2 if eng else 1) for x in r[3:]]) for r in before], dtype=float)
     w = np.linalg.eigvalsh(T)
     kappa = np.maximum(1.0, np.abs(1 / (1 + w)).max(axis=1))
     scale = np.maximum(np.abs(T).max(axis=(1, 2)), 1.0)
-    tol = 1e-12 * kappa**2 * scale
+    tol = rel * kappa**2 * scale
     if case.get('tol') == 'linear':
         # near-singular stream: the once-inverted tensor has magnitude kappa, eigh on it is accurate to a few ulp of kappa
         # and the second inversion maps that back with factors (1 + l)^2 <= O(1): rounding noise is linear in kappa
@@ -392,16 +690,25 @@ def check_strain(ctx, case):
     if inv2.shape != before.shape or not np.all(np.abs(inv2 - before).max(axis=1) <= tol * 2):
         fails.append(('strain:twice', 'inverting a strain twice does not return the original',
                       {'input': before.tolist(), 'once': inv1.tolist(), 'twice': np.asarray(inv2).tolist(), 'tol': tol.tolist()}))
-    B = np.array([mat_of([r[0], r[1], r[2]] + [x / (2 if eng else 1) for x in r[3:]]) for r in inv1])
+    B = np.array([mat_of([r[0], r[1], r[2]] + [x / (2 if eng else 1) for x in r[3:]]) for r in inv1], dtype=float)
     prod = np.einsum('nij,njk->nik', np.eye(3) + T, np.eye(3) + B)
     if not np.all(np.abs(prod - np.eye(3)).max(axis=(1, 2)) <= tol * 4):
         fails.append(('strain:inverse', '(1 + strain)(1 + inverted) differs from the identity',
                       {'input': before.tolist(), 'once': inv1.tolist(), 'product': prod.tolist()}))
-    if ctx.driver is not None and len(tap.calls) == 1:
-        A, ww, V = tap.calls[0]
-        lines = [f'c17.invstrain {rats(ww[k])} {rats(V[k])} {int(eng)}' for k in range(len(a0))]
-        rep = ctx.driver.ask_many(lines)
-        for k, r in enumerate(rep):
+    if ctx.driver is not None and rel == 1e-12:
+        caps = captured(tap)
+        rows_ = []
+        for k in range(len(a0)):
+            cap = caps.get((T[k] + 0.0).tobytes())
+            if cap is None:
+                if not ctx.dist.get('tie:strain:tensor-not-handed-to-eigh'):
+                    no_capture(ctx, 'invert_strain', {'eng': eng, 'row': before[k].tolist()})
+                ctx.count('tie:strain:tensor-not-handed-to-eigh')
+                continue
+            rows_.append((k, cap))
+        lines = [f'c17.invstrain {rats(cap[1])} {rats(cap[2])} {int(eng)}' for k, cap in rows_]
+        rep = ctx.driver.ask_many(lines) if lines else []
+        for (k, cap), r in zip(rows_, rep):
             got = np.array([float(x) for x in reply_rats(r)[1:]])
             if got.shape != inv1[k].shape or not np.all(np.abs(got - inv1[k]) <= 1e-13 * kappa[k] * 4):
                 ctx.disagree('invert_strain (on the captured eigen-system)', {'eng': eng, 'row': before[k].tolist()},
@@ -413,7 +720,9 @@ def check_strain(ctx, case):
 
 def check_lte(ctx, case):
     fails = []
-    f0 = np.array(case['f'], dtype=float)
+    dtype = case.get('dtype', 'float64')
+    rel = rel_tol(dtype)
+    f0 = materialise(case['f'], dtype, case.get('layout', 'C'))
     n = len(f0)
     import femio
     fd = MG.quiet(femio.generate_brick, 'hex', n, 1, 1)
@@ -428,33 +737,44 @@ def check_lte(ctx, case):
     fd.elemental_data.pop('linear_thermal_expansion_coefficient_full')
     MG.quiet(fd.convert_lte_local2global)
     back = fd.elemental_data.get_attribute_data('lte_full')
-    scale = np.maximum(np.abs(before).max(axis=1), 1e-300)
-    if back.shape != before.shape or not np.all(np.abs(back - before).max(axis=1) <= 1e-12 * scale):
+    scale = np.maximum(np.abs(before.astype(float)).max(axis=1), 1e-300)
+    back = np.asarray(back)
+    if back.shape != before.shape or not np.all(np.abs(back - before).max(axis=1) <= rel * scale):
         fails.append(('lte:roundtrip', 'lte_full -> (lte, orientation) -> lte_full does not return the original values',
                       {'input': before.tolist(), 'lte': lte.tolist(), 'orient': orient.tolist(), 'back': np.asarray(back).tolist()}))
-    if ctx.driver is not None and len(tap.calls) == 1:
-        A, w, V = tap.calls[0]
-        lines = []
+    if ctx.driver is not None and rel == 1e-12 and back.shape == before.shape:
+        caps = captured(tap)
+        bf = before.astype(float)
+        lines, rows_ = [], []
         for k in range(n):
-            lines += [f'c17.ltemat {lst(before[k])}', f'c17.residual {rats(A[k])} {rats(w[k])} {rats(V[k])}',
-                      f'c17.lteg2l {rats(w[k])} {rats(V[k])}', f'c17.ltel2g {rats(lte[k])} {lst(orient[k])}']
-        rep = ctx.driver.ask_many(lines)
-        for k in range(n):
+            r_ = bf[k]
+            cap = caps.get((mat_of([r_[0], r_[1], r_[2], r_[3] / 2, r_[4] / 2, r_[5] / 2]) + 0.0).tobytes())
+            if cap is None:
+                if not ctx.dist.get('tie:lte:tensor-not-handed-to-eigh'):
+                    no_capture(ctx, 'convert_lte_global2local', {'row': before[k].tolist()})
+                ctx.count('tie:lte:tensor-not-handed-to-eigh')
+                continue
+            A_, w_, V_ = cap
+            rows_.append((k, A_))
+            lines += [f'c17.ltemat {lst(before[k])}', f'c17.residual {rats(A_)} {rats(w_)} {rats(V_)}',
+                      f'c17.lteg2l {rats(w_)} {rats(V_)}', f'c17.ltel2g {rats(lte[k])} {lst(orient[k])}']
+        rep = ctx.driver.ask_many(lines) if lines else []
+        for q, (k, A_) in enumerate(rows_):
             ci = {'row': before[k].tolist()}
-            if reply_rats(rep[4 * k]) != fr(A[k]):
-                ctx.disagree('matrix handed to eigh by convert_lte_global2local', ci, A[k].tolist(), rep[4 * k][:200])
+            if reply_rats(rep[4 * q]) != fr(A_):
+                ctx.disagree('matrix handed to eigh by convert_lte_global2local', ci, A_.tolist(), rep[4 * q][:200])
                 break
-            res = [float(x) for x in reply_rats(rep[4 * k + 1])]
-            sc = max(float(np.abs(A[k]).max()), 1e-300)
+            res = [float(x) for x in reply_rats(rep[4 * q + 1])]
+            sc = max(float(np.abs(A_).max()), 1e-300)
             if max(abs(x) for x in res[:9]) > 1e-12 * sc or max(abs(x) for x in res[9:18]) > 1e-12 or res[18] != 1:
                 ctx.disagree('eigh post-condition (hypothesis of the theorems) does not hold numerically', ci, res, 'residual <= 1e-12')
                 break
-            g = reply_rats(rep[4 * k + 2])
+            g = reply_rats(rep[4 * q + 2])
             if g[:3] != fr(lte[k]) or g[4:] != fr(orient[k]):
                 ctx.disagree('convert_lte_global2local stored values', ci, {'lte': lte[k].tolist(), 'orient': orient[k].tolist()},
                              [str(x) for x in g])
                 break
-            l2g = np.array([float(x) for x in reply_rats(rep[4 * k + 3])[1:]])
+            l2g = np.array([float(x) for x in reply_rats(rep[4 * q + 3])[1:]])
             if l2g.shape != back[k].shape or not np.all(np.abs(l2g - back[k]) <= 1e-13 * scale[k]):
                 ctx.disagree('convert_lte_local2global', ci, back[k].tolist(), l2g.tolist())
                 break
@@ -463,20 +783,44 @@ def check_lte(ctx, case):
 
 
 def build_sparse(spec):
-    """spec: {'shape', 'fmt', 'entries': [[i, j, v], ...] in stored order}; CSR built from raw arrays keeps explicit zeros
-    and the stored (possibly unsorted) column order"""
+    """spec: {'shape', 'fmt' in csr / csc / coo, 'entries': [[i, j, v], ...] in stored order, optional 'idx' (dtype of the
+    index arrays handed to scipy, int32 / int64) and 'dtype' (of the stored values)}; CSR / CSC are built from raw arrays and keep
+    explicit zeros and the stored (possibly unsorted) order inside a row / column; COO keeps repeated cells (their sum is the value
+    of the matrix).  Cost is O(n_row + n_col + nnz) whatever the shape."""
     r, c = spec['shape']
     ent = spec['entries']
-    if spec['fmt'] == 'coo':
-        return sp.coo_matrix(([e[2] for e in ent], ([e[0] for e in ent], [e[1] for e in ent])), shape=(r, c), dtype=float)
-    indptr, indices, data = [0], [], []
-    for i in range(r):
-        for e in ent:
-            if e[0] == i:
-                indices.append(e[1])
-                data.append(e[2])
-        indptr.append(len(indices))
-    return sp.csr_matrix((np.array(data, dtype=float), np.array(indices, dtype=np.int32), np.array(indptr, dtype=np.int32)), shape=(r, c))
+    idx = np.dtype(spec.get('idx', 'int32'))
+    dt = np.dtype(spec.get('dtype', 'float64'))
+    if (max(r, c) > np.iinfo(np.int32).max):
+        idx = np.dtype('int64')
+    ii = np.array([e[0] for e in ent], dtype=idx)
+    jj = np.array([e[1] for e in ent], dtype=idx)
+    vv = np.array([e[2] for e in ent], dtype=float).astype(dt)
+    assert np.array_equal(vv.astype(float), np.array([e[2] for e in ent], dtype=float)), 'generator: value not representable in the dtype'
+    fmt = spec['fmt']
+    if fmt == 'coo':
+        return sp.coo_matrix((vv, (ii, jj)), shape=(r, c))
+    major, minor, nmaj = (ii, jj, r) if fmt == 'csr' else (jj, ii, c)
+    assert nmaj <= 400000, 'generator: compressed axis too long to be cheap'
+    perm = np.argsort(major, kind='stable')
+    indptr = np.concatenate([[0], np.cumsum(np.bincount(major, minlength=nmaj))]).astype(idx)
+    cls = sp.csr_matrix if fmt == 'csr' else sp.csc_matrix
+    return cls((vv[perm], minor[perm].astype(idx), indptr), shape=(r, c))
+
+
+def cells_of(m):
+    """{(i, j): value} of any scipy sparse matrix (repeated cells summed, explicit zeros kept), O(nnz)"""
+    coo = m.tocoo()
+    d = {}
+    for i, j, v in zip(coo.row.tolist(), coo.col.tolist(), coo.data.tolist()):
+        d[(i, j)] = d.get((i, j), 0.0) + float(v)
+    return d
+
+
+def stored_pattern(o):
+    """stored (row, column) pairs of a CSR matrix in storage order"""
+    rows = np.repeat(np.arange(o.shape[0]), np.diff(o.indptr))
+    return list(zip(rows.tolist(), o.indices.tolist()))
 
 
 def check_align(ctx, case):
@@ -484,50 +828,67 @@ def check_align(ctx, case):
     fails = []
     mats = [build_sparse(s) for s in case['mats']]
     r, c = case['mats'][0]['shape']
-    for s_ in case['mats']:      # hypothesis hwf of the theorem
+    want = []                                   # the value of every input: {cell: exact value}, explicit zeros are stored cells
+    for s_ in case['mats']:      # hypothesis hwf of the theorem (repeated cells only in the COO format, where they mean their sum)
         cells_ = [(e[0], e[1]) for e in s_['entries']]
-        assert len(set(cells_)) == len(cells_) and all(0 <= i < r and 0 <= j < c for i, j in cells_)
-    snap = [(m.tocoo().row.copy(), m.tocoo().col.copy(), m.data.copy(), m.toarray()) for m in mats]
+        assert (len(set(cells_)) == len(cells_) or s_['fmt'] == 'coo') and all(0 <= i < r and 0 <= j < c for i, j in cells_)
+        d = {}
+        for e in s_['entries']:
+            d[(e[0], e[1])] = d.get((e[0], e[1]), 0) + F(float(e[2]))
+        want.append(d)
+    snap = [cells_of(m) for m in mats]
+    pre = case.get('sigprefix', '')
     out = fn.align_nnz(mats)
     # (scipy canonicalises unsorted inputs in place when adding; the property does not claim anything about the
     #  representation of the inputs, only the values are compared)
-    for m, (row, col, data, dense) in zip(mats, snap):
-        if not np.array_equal(m.toarray(), dense):
+    for m, d in zip(mats, snap):
+        if cells_of(m) != d:
             ctx.count('note:align_nnz changed the value of an input')
-    allv = [0.0] if any(len(s['entries']) < r * c for s in case['mats']) else []
-    allv += [e[2] for s in case['mats'] for e in s['entries']]
-    D = abs(min(allv)) * 2 + 1
-    union = sorted({(e[0], e[1]) for s in case['mats'] for e in s['entries']})
-    pats = []
-    for o in out:
-        o = o.tocsr()
-        pats.append([(i, int(j)) for i in range(r) for j in o.indices[o.indptr[i]:o.indptr[i + 1]]])
+    allv = [F(0)] if any(len(d) < r * c for d in want) else []
+    allv += [v for d in want for v in d.values()]
+    D = float(abs(min(allv)) * 2 + 1)
+    # (s + c D) - c D is rounded at the magnitude of s + c D: the tolerance is relative to the larger of D and the largest entry
+    # (a positive matrix has D = 1 whatever the size of its entries)
+    tolA = 1e-12 * max(D, float(max(abs(v) for v in allv)) if allv else 0.0)
+    union = sorted({k for d in want for k in d})
+    small = r * c <= 64
+    out = list(out)
+    ocsr = [o.tocsr() for o in out]
+    pats = [stored_pattern(o) for o in ocsr]
     if len(out) != len(mats) or any(p != union for p in pats):
-        fails.append(('align:pattern', 'aligned matrices do not share the union pattern of the inputs',
+        fails.append((pre + 'align:pattern', 'aligned matrices do not share the union pattern of the inputs',
                       {'union': union, 'patterns': pats, 'mats': case['mats']}))
-    for o, (_, _, _, dense), s in zip(out, snap, case['mats']):
-        if o.shape != dense.shape or not np.all(np.abs(o.toarray() - dense) <= 1e-12 * D):
-            fails.append(('align:values', 'aligned matrix differs from its input',
-                          {'input': dense.tolist(), 'output': o.toarray().tolist(), 'D': D, 'mats': case['mats']}))
+    for k, (o, d) in enumerate(zip(ocsr, want)):
+        got = cells_of(o) if o.shape == (r, c) else None
+        bad = None if got is not None else 'shape'
+        if got is not None:
+            for cell in set(got) | set(d):
+                if abs(got.get(cell, 0.0) - float(d.get(cell, 0))) > tolA:
+                    bad = cell
+                    break
+        if bad is not None:
+            fails.append((pre + 'align:values', f'aligned matrix {k} differs from its input' + (f' at cell {bad}: input {float(d.get(bad, 0))!r}, '
+                          f'aligned {got.get(bad, 0.0)!r}' if got is not None else ' (shape)'),
+                          {'input': sorted([i, j, float(v)] for (i, j), v in d.items()),
+                           'output': sorted([i, j, v] for (i, j), v in (got or {}).items()), 'D': D,
+                           **({'mats': case['mats']} if small else {})}))
             break
     if ctx.driver is not None:
-        toks = ['c17.align', str(r * c), str(len(case['mats']))]
-        for s in case['mats']:
-            toks.append(str(len(s['entries'])))
-            for e in s['entries']:
-                toks += [str(e[0]), str(e[1]), C.enc_rat(float(e[2]))]
+        toks = ['c17.align', str(r * c), str(len(want))]
+        for d in want:           # the model's input is the canonical form of every matrix (repeated COO cells summed)
+            toks.append(str(len(d)))
+            for (i, j), v in d.items():
+                toks += [str(i), str(j), str(v)]
         t = C.Toks(ctx.driver.ask(' '.join(toks))[3:])
         mD = t.rat()
         mm = t.lst(lambda: t.lst(lambda: (t.nat(), t.nat(), t.rat())))
         if abs(float(mD) - D) > 4e-16 * D:        # the real D is rounded once more than the exact one
             ctx.disagree('align_nnz dummy scale', case, D, str(mD))
         else:
-            for o, mo in zip(out, mm):
-                o = o.tocsr()
-                real = [(i, int(j), float(v)) for i in range(r)
-                        for j, v in zip(o.indices[o.indptr[i]:o.indptr[i + 1]], o.data[o.indptr[i]:o.indptr[i + 1]])]
+            for o, mo in zip(ocsr, mm):
+                real = [(i, j, float(v)) for (i, j), v in zip(stored_pattern(o), o.data.tolist())]
                 if [(i, j) for i, j, _ in real] != [(i, j) for i, j, _ in mo] or any(
-                        abs(a[2] - float(b[2])) > 1e-12 * D for a, b in zip(real, mo)):
+                        abs(a[2] - float(b[2])) > tolA for a, b in zip(real, mo)):
                     ctx.disagree('align_nnz output', case, real, [(i, j, str(v)) for i, j, v in mo])
                     break
         ctx.count('compared:align_nnz matrices', len(mats))
@@ -544,7 +905,7 @@ def guarded(f, ctx, case):
         frames = traceback.extract_tb(e.__traceback__)
         if any('/femio/' in fr.filename for fr in frames):
             where = [fr for fr in frames if '/femio/' in fr.filename][-1]
-            return [(f'raises:{where.name}:{type(e).__name__}', f'{where.name} raises {type(e).__name__}: {e}',
+            return [(f'{case.get("sigprefix", "")}raises:{where.name}:{type(e).__name__}', f'{where.name} raises {type(e).__name__}: {e}',
                      {'line': where.lineno})]
         raise
 
@@ -577,6 +938,124 @@ def gen_align(rnd):
     return {'mats': mats}
 
 
+# shapes with n_row * n_col around and beyond 2**31, 2**32, 2**33 whose CSR form is cheap (n_row <= 3e5): flattened
+# (row * n_col + col) positions of the last rows do not fit the int32 index dtype scipy uses for such matrices; the two with
+# n_col > 2**31 get int64 index arrays from scipy
+BIG_SHAPES = [(46341, 46341), (46340, 46341), (65536, 65536), (65537, 65535), (70000, 70000), (100000, 50000), (50000, 100000),
+              (3, 2**31 - 1), (2, 2**30 + 1), (7, 2**29 + 3), (92682, 92683), (200000, 200000), (300000, 16384), (16384, 300000),
+              (4, 2**33 + 1), (1, 2**32 + 7)]
+ALIGN_DTYPES = ['float64', 'float64', 'float64', 'float32', 'int8', 'int16', 'int32', 'int64', 'uint8', 'uint16', 'uint32', 'uint64', 'bool']
+
+
+def align_value(rnd, dtype, sign):
+    dt = np.dtype(dtype)
+    if dt.kind == 'b':
+        return 1.0
+    if dt.kind == 'f' and dt.itemsize == 8:
+        v = rnd.choice([float(rnd.randint(1, 9)), rnd.randint(1, 2**20) / 2.0**rnd.randint(0, 12), round(rnd.uniform(0, 100), 6) + .5])
+    elif dt.kind == 'f':
+        v = rnd.choice([float(rnd.randint(1, 9)), rnd.randint(1, 2**20) / 2.0**rnd.randint(0, 12)])
+    else:
+        v = float(rnd.randint(1, 9))
+    if dt.kind != 'u' and (sign == 'negative' or (sign == 'mixed' and rnd.random() < .5)):
+        v = -v
+    return v
+
+
+def big_cells(rnd, r, c, n):
+    """n distinct cells of an (r, c) matrix, concentrated where flattened positions cross 2**31, 2**32, 2**33, at the last rows /
+    columns and at the corners"""
+    rows = {0, 1, r - 1, r - 2, r // 2}
+    cols = {0, 1, c - 1, c - 2, c // 2}
+    for b in (2**31, 2**32, 2**33):
+        q, m = divmod(b, c)
+        rows |= {q - 1, q, q + 1}
+        cols |= {m - 1, m, m + 1}
+    rows = sorted(x for x in rows if 0 <= x < r)
+    cols = sorted(x for x in cols if 0 <= x < c)
+    cells = set()
+    while len(cells) < min(n, r * c):
+        i = rnd.choice(rows) if rnd.random() < .75 else rnd.randrange(r)
+        j = rnd.choice(cols) if rnd.random() < .6 else rnd.randrange(c)
+        cells.add((i, j))
+    return sorted(cells)
+
+
+def gen_align_x(rnd, size):
+    """align_nnz inputs with the dimensions the first generator lacks: per-matrix format (csr / csc / coo, mixed inside one list),
+    dtype of the index arrays handed to scipy, dtype of the stored values, repeated cells in COO (float64 only), unsorted order in
+    CSR and CSC, and shape class `size`: 'small' (<= 6 x 6), 'medium' (<= 300 x 300, sparse), 'big' (BIG_SHAPES)"""
+    if size == 'big':
+        r, c = rnd.choice(BIG_SHAPES)
+    elif size == 'medium':
+        r, c = rnd.randint(7, 300), rnd.randint(7, 300)
+    else:
+        r, c = rnd.randint(1, 6), rnd.randint(1, 6)
+    k = rnd.randint(1, 4)
+    fmts = [f for f in ('csr', 'csc', 'coo') if not (f == 'csc' and c > 400000)]
+    mode = rnd.choice(['same', 'same', 'mixed'])
+    f0 = rnd.choice(fmts)
+    dtype = rnd.choice(ALIGN_DTYPES)
+    dt = np.dtype(dtype)
+    sign = rnd.choice(['mixed', 'mixed', 'positive', 'negative'])
+    layout = rnd.choice(['spread', 'first-and-last', 'shared']) if size != 'small' else 'spread'
+    base = big_cells(rnd, r, c, rnd.randint(2, 14)) if size != 'small' else None
+    extreme = dt.kind in 'iu' and rnd.random() < .3
+    mats = []
+    for q in range(k):
+        fmt = f0 if mode == 'same' else rnd.choice(fmts)
+        if size == 'small':
+            dens = rnd.choice([0.0, .2, .5, .8, 1.0])
+            cells = [(i, j) for i in range(r) for j in range(c) if rnd.random() < dens or dens == 1.0]
+        elif layout == 'shared':
+            cells = list(base)
+        elif layout == 'first-and-last':
+            cut = base[len(base) // 2][0]
+            lo, hi = [x for x in base if x[0] < cut], [x for x in base if x[0] >= cut]
+            cells = (lo, hi)[q % 2] if rnd.random() < .8 else list(base)
+        else:
+            cells = big_cells(rnd, r, c, rnd.randint(0, 14)) if rnd.random() < .6 else rnd.sample(base, rnd.randint(0, len(base)))
+        cells = list(cells)
+        if (fmt != 'coo' and rnd.random() < .4 and max(r, c) <= 400000) or (fmt == 'coo' and rnd.random() < .5):
+            # unsorted order inside the rows / columns, arbitrary order of the COO triplets (not for CSR with more than 4e5
+            # columns: scipy adds unsorted CSR matrices with an O(n_col) workspace, which is gigabytes there - a cost, not a value)
+            rnd.shuffle(cells)
+        ent = []
+        for (i, j) in cells:
+            v = align_value(rnd, dtype, sign)
+            if rnd.random() < .08 and fmt != 'coo':
+                v = 0.0                  # explicit zero (stored False for bool)
+            ent.append([i, j, v])
+        if fmt == 'coo' and dtype == 'float64' and ent and rnd.random() < .3:
+            for _ in range(rnd.randint(1, 3)):       # repeated cells: the matrix holds their sum
+                i, j, _v = rnd.choice(ent)
+                ent.insert(rnd.randrange(len(ent) + 1), [i, j, align_value(rnd, dtype, sign)])
+        mats.append({'shape': [r, c], 'fmt': fmt, 'entries': ent, 'idx': rnd.choice(['int32', 'int64']), 'dtype': dtype})
+    case = {'mats': mats}
+    if extreme:
+        # values at the ends of the integer dtype: everything femio derives from the entries (the dummy value 2 |min| + 1, sums
+        # over the inputs) leaves the dtype; one entry is chosen so that adding the WRAPPED dummy value cancels it
+        info = np.iinfo(dt)
+        bits = dt.itemsize * 8
+        ents = [e for m_ in mats for e in m_['entries'] if e[2] != 0.0]
+        if len(ents) >= 2 and bits <= 32:
+            lo = [info.min, info.min + 1, -(info.max // 2) - 1, -(info.max // 2) - rnd.randint(2, 30), -info.max] if dt.kind == 'i' \
+                else [info.max, info.max - 1, info.max // 2 + 1]
+            mval = rnd.choice(lo)
+            e0, e1 = rnd.sample(ents, 2)
+            for e in ents:
+                if dt.kind == 'i' and e[2] < mval:
+                    e[2] = float(mval)
+            e0[2] = float(mval)
+            wrapped = ((2 * abs(mval) + 1 + (2**(bits - 1) if dt.kind == 'i' else 0)) % 2**bits) - (2**(bits - 1) if dt.kind == 'i' else 0)
+            for cand in (-wrapped, -2 * wrapped, info.max):
+                if max(mval, info.min) <= cand <= info.max and cand != 0 and (dt.kind == 'i' or cand >= 0):
+                    e1[2] = float(cand)
+                    break
+            case['sigprefix'] = 'int-dtype-extreme:'
+    return case
+
+
 def run(ctx):
     rnd = ctx.rng
     perms = list(itertools.permutations(range(6)))
@@ -593,6 +1072,19 @@ def run(ctx):
         for sig, what, obs in fails:
             ctx.fail(sig, what, {'kind': kind, **case}, obs)
 
+    import time
+    laps, t_last = {}, [time.time()]
+
+    def lap(name):
+        laps[name] = round(laps.get(name, 0) + time.time() - t_last[0], 2)
+        t_last[0] = time.time()
+    ctx.extra['stream_s'] = laps
+    # 0. corpus (inputs of earlier findings and of the classes of seeded changes that were once missed)
+    for name, obj in C.corpus_cases(PROP):
+        case = dict(obj['input'])
+        kind = case.pop('kind')
+        record(kind, case, CHECKS[kind], ('corpus', name), None)
+        ctx.count('corpus')
     # 1. array <-> matrix for every order x both conventions
     for order in orders:
         for eng in (False, True):
@@ -604,6 +1096,7 @@ def run(ctx):
             ctx.count(f'layout:{layout}')
             for k in kinds:
                 ctx.count(f'tensor:{k}')
+    lap('1 arrmat')
     # 1b. integer-valued arrays stored with an integer dtype (labelled stream)
     for _ in range(ctx.n(6, 40)):
         order = rnd.choice(orders)
@@ -612,6 +1105,7 @@ def run(ctx):
         case = {'a': a.tolist(), 'order': list(order), 'eng': eng, 'layout': 'C', 'dtype': 'int'}
         record('arrmat', case, check_arrmat, ('int', a.tobytes(), order, eng), None)
         ctx.count('stream:int-dtype')
+    lap('1b int')
     # 2. principal components / array_from_eigens
     for order in rnd.sample(orders, ctx.n(60, 300)):
         for eng in (False, True):
@@ -619,6 +1113,7 @@ def run(ctx):
             case = {'a': a.tolist(), 'order': list(order), 'eng': eng}
             record('principal', case, check_principal, (a.tobytes(), order, eng),
                    {'order': list(order), 'eng': eng, 'a': a.tolist()[:2], 'kinds': kinds}, nontrivial=bool(np.any(a)))
+    lap('2 principal')
     # 3. invert_strain (default order only: the function has no order option)
     for _ in range(ctx.n(120, 500)):
         eng = rnd.random() < .5
@@ -626,11 +1121,13 @@ def run(ctx):
         case = {'a': a.tolist(), 'eng': eng}
         record('strain', case, check_strain, (a.tobytes(), eng), {'eng': eng, 'a': a.tolist()[:2], 'kinds': kinds},
                nontrivial=bool(np.any(a)))
+    lap('3 strain')
     # 4. lte global -> local -> global
     for _ in range(ctx.n(40, 200)):
         a, ts, kinds = batch(rnd, tuple(range(6)), True)
         case = {'f': a.tolist()}
         record('lte', case, check_lte, a.tobytes(), {'f': a.tolist()[:2], 'kinds': kinds}, nontrivial=bool(np.any(a)))
+    lap('4 lte')
     # 5. align_nnz
     for _ in range(ctx.n(300, 1500)):
         case = gen_align(rnd)
@@ -638,6 +1135,7 @@ def run(ctx):
                nontrivial=any(s['entries'] for s in case['mats']))
         ctx.count(f'align:fmt={case["mats"][0]["fmt"]}')
         ctx.count(f'align:k={len(case["mats"])}')
+    lap('5 align')
     # 6. invert_strain on near-singular strains (principal stretch 1 + l = 1e-7 .. 5e-6), linear tolerance; drawn last so
     #    that the cases of the streams above are unchanged for a given seed
     for _ in range(ctx.n(200, 1000)):
@@ -650,6 +1148,73 @@ def run(ctx):
         for k in kinds:
             if k.startswith('near-singular-strain'):
                 ctx.count('strain:' + k)
+    lap('6 strain near-singular')
+    # 7. structured special tensors (class H): every variant of special_variants() in ONE batch together with a few general
+    #    tensors, through every helper; all six orders of an exactly diagonal tensor, repeated values at every position, ...
+    ident = tuple(range(6))
+    for order in [ident] + rnd.sample(orders, ctx.n(9, 119)):
+        for eng in (False, True):
+            a, kinds = special_batch(rnd, order, eng, full=True)
+            case = {'a': a.tolist(), 'order': list(order), 'eng': eng}
+            record('principal', case, check_principal, ('H', a.tobytes(), order, eng), None)
+            record('arrmat', {**case, 'layout': 'C'}, check_arrmat, ('H', a.tobytes(), order, eng), None)
+            ctx.count('stream:structured:principal+arrmat')
+            for k in kinds:
+                ctx.count('special:' + k.split(':')[0])
+                if k.startswith('diagonal:'):
+                    ctx.count('special:' + k)
+    for _ in range(ctx.n(8, 60)):
+        eng = rnd.random() < .5
+        a, kinds = special_batch(rnd, ident, eng, strain=True, full=True)
+        record('strain', {'a': a.tolist(), 'eng': eng}, check_strain, ('H', a.tobytes(), eng), None)
+        ctx.count('stream:structured:strain')
+    for _ in range(ctx.n(6, 40)):
+        a, kinds = special_batch(rnd, ident, True, full=True)
+        record('lte', {'f': a.tolist()}, check_lte, ('H', a.tobytes()), None)
+        ctx.count('stream:structured:lte')
+    lap('7 structured')
+    # 8. dtype and memory layout of the caller's array (class F) x helper, on structured and general batches
+    for _ in range(ctx.n(120, 800)):
+        helper = rnd.choice(['arrmat', 'principal', 'principal', 'strain', 'lte'])
+        dtype = rnd.choice(DTYPES + ['float64', 'float32'])
+        layout = rnd.choice(LAYOUTS)
+        order = rnd.choice(orders) if helper in ('arrmat', 'principal') else ident
+        eng = True if helper == 'lte' else rnd.random() < .5
+        if np.dtype(dtype).kind == 'f' and rnd.random() < .4:
+            a, _, kinds = batch(rnd, order, eng, strain=(helper == 'strain'))
+            if dtype == 'float32':
+                a = a.astype(np.float32).astype(float)
+        else:
+            a, kinds = special_batch(rnd, order, eng, strain=(helper == 'strain'), dtype=dtype)
+        if not len(a):
+            continue
+        if helper == 'lte':
+            case = {'f': a.tolist(), 'dtype': dtype, 'layout': layout}
+        elif helper == 'strain':
+            case = {'a': a.tolist(), 'eng': eng, 'dtype': dtype, 'layout': layout}
+        else:
+            case = {'a': a.tolist(), 'order': list(order), 'eng': eng, 'dtype': dtype, 'layout': layout, 'mlayout': rnd.choice(MLAYOUTS)}
+            ctx.count(f'returned-array-layout:{case["mlayout"]}')
+        record(helper, case, CHECKS[helper], ('F', helper, a.tobytes(), order, eng, dtype, layout), None, nontrivial=bool(np.any(a)))
+        ctx.count(f'stream:typed:{helper}')
+        ctx.count(f'dtype:{dtype}')
+        ctx.count(f'layout:{layout}')
+    lap('8 typed')
+    # 9. align_nnz: formats mixed inside one list, csc, index dtype, value dtype, repeated COO cells; medium shapes; and a few
+    #    large-but-cheap shapes (class G: n_row * n_col beyond 2**31 / 2**32 / 2**33 with a handful of stored entries)
+    for size, cnt in (('small', ctx.n(150, 800)), ('medium', ctx.n(30, 200)), ('big', ctx.n(30, 250))):
+        for _ in range(cnt):
+            case = gen_align_x(rnd, size)
+            record('align', case, check_align, repr(case), None, nontrivial=any(s_['entries'] for s_ in case['mats']))
+            ctx.count(f'align:size={size}')
+            ctx.count(f'align:value-dtype={case["mats"][0]["dtype"]}')
+            ctx.count('align:formats=' + '+'.join(sorted({s_['fmt'] for s_ in case['mats']})))
+            if 'sigprefix' in case:
+                ctx.count('stream:align:int-dtype-extreme')
+            if size == 'big':
+                r_, c_ = case['mats'][0]['shape']
+                ctx.count('align:big:cells>2^%d' % (33 if r_ * c_ > 2**33 else 32 if r_ * c_ > 2**32 else 31 if r_ * c_ > 2**31 else 0))
+    lap('9 align extended')
     ctx.extra['orders'] = len(orders)
 
 
